@@ -17,29 +17,36 @@ from ..loader import AnalysisError, Program, dotted, norm, parent
 from . import common as C
 
 ID = 'C09'
-TECHNIQUE = ('literal folding of the nine shipped tables compared with a reference copy; origin/effect analysis for '
-             'writers of the tables; abstract evaluation of calculate_curve (pre-loop, loop body with symbolic index, '
-             'tail) to rational normal forms and node identities a x^2 + b x + c = y; normal form of drag_by_mach; the '
-             'selector\'s search loop by inductive invariants in a linear-constraint domain (Houdini inference, '
-             'Fourier-Motzkin refutation) with counterexamples from a finite ordering family')
+TECHNIQUE = ('literal folding of the nine shipped tables compared with a reference copy; origin/effect '
+             'analysis for writers of the tables; abstract evaluation of calculate_curve (pre-loop, loop body'
+             ' with symbolic index, tail) to rational normal forms and node identities a x^2 + b x + c = y; '
+             'drag_by_mach evaluated on the solver state _init_trajectory leaves for a symbolic shot; '
+             "make_data_points evaluated on a table mixing the accepted entry kinds; the selector's search "
+             'loop by inductive invariants in a linear-constraint domain (Houdini inference, Fourier-Motzkin '
+             'refutation) with counterexamples from a finite ordering family')
 DECIDED = [
-    'R1 the nine shipped tables are literal lists, strictly ascending in Mach from exactly 0, CD > 0, equal to the '
-    'reference copy; no code in the package stores into them or hands their dict entries to a model '
-    '(make_data_points builds a fresh point per entry)',
-    'R2 every curve entry the selector can return passes through its nodes exactly (first entry: the line through '
-    'nodes 0 and 1; entry i: the parabola through nodes i-1, i, i+1), entries land at the index of their middle node, '
-    'and the selector evaluates c + b m + a m^2 of one and the same entry',
-    'R3 drag_by_mach = Cd * K / BC with K within 1e-4 of standard density * pi / (8 * 144); BC, table, curve and Mach '
-    'nodes all come from shot.ammo.dm on every entry; the Mach node list is the table\'s Mach column in order',
-    'R4 the selector, for every table length and every query: at each return the value is c + q (b + a q) of one entry m '
-    'with 0 <= m <= n-2 and (m = 0 or ml[m-1] <= q) and (m = n-2 or q <= ml[m+1]), i.e. the nodes of the entry (R2) '
-    'include both neighbours of the query, and every index is in range - proved from branch conditions and inductive '
-    'loop invariants inferred Houdini-style, refutation by Fourier-Motzkin with case splits (engine F); an unproved '
-    'obligation becomes a violation only with a concrete counterexample from the finite input family (which also '
-    'exposes a loop that never terminates)',
+    'R1 the nine shipped tables are literal lists, strictly ascending in Mach from exactly 0, CD > 0, equal '
+    'to the reference copy; no code in the package stores into them or hands their dict entries to a model '
+    '(make_data_points builds a fresh point per entry, and keeps Mach and CD of a point object, a dict and a '
+    'dict with its keys the other way round by name)',
+    'R2 every curve entry the selector can return passes through its nodes exactly (first entry: the line '
+    'through nodes 0 and 1; entry i: the parabola through nodes i-1, i, i+1), entries land at the index of '
+    'their middle node, and the selector evaluates c + b m + a m^2 of one and the same entry',
+    'R3 drag_by_mach = Cd * K / BC with K within 1e-4 of standard density * pi / (8 * 144); evaluated on the '
+    'state _init_trajectory leaves (whatever the attributes are called): the selector receives the Mach nodes'
+    " and the curve of the shot's own drag table and the Mach number given, and the divisor is the BC of the "
+    "shot's drag model; the Mach node list is the table's Mach column in order",
+    'R4 the selector, for every table length and every query: at each return the value is c + q (b + a q) of '
+    'one entry m with 0 <= m <= n-2 and (m = 0 or ml[m-1] <= q) and (m = n-2 or q <= ml[m+1]), i.e. the nodes'
+    ' of the entry (R2) include both neighbours of the query, and every index is in range - proved from '
+    'branch conditions and inductive loop invariants inferred Houdini-style, refutation by Fourier-Motzkin '
+    'with case splits (engine F); an unproved obligation becomes a violation only with a concrete '
+    'counterexample from the finite input family (which also exposes a loop that never terminates)',
 ]
-NOT_DECIDED = ['termination of the bisection for tables longer than the finite family; positivity and the 5 % band '
-               'between nodes (numerics)']
+NOT_DECIDED = [
+    'termination of the bisection for tables longer than the finite family; positivity and the 5 % band '
+    'between nodes (numerics)',
+]
 
 REF = os.path.join(os.path.dirname(os.path.dirname(os.path.abspath(__file__))), 'spec', 'drag_tables_ref.json')
 
